@@ -48,6 +48,10 @@ type odef struct {
 	// third family: the identifying property is private (`_id`), so objects of the same layout have
 	// identical public properties and differ only in a private one
 	PID bool `json:"pid,omitempty"`
+	// VK: what a 'v' (plain value) property holds: 0 an int, 1 an object that descends from a function
+	// (not callable: `x(1)` raises TypeErr), 2 an iterator literal - both
+	// non-callable, so they are returned as they are and arguments are ignored
+	VK int `json:"vk,omitempty"`
 	// bearof / broof / rootof: the new object takes the own properties of the existing object Src
 	// (vOf.bear(vSrc), vOf.bro(vSrc), Obj.bear(vSrc)) instead of a literal
 	Src int `json:"src,omitempty"`
@@ -172,7 +176,7 @@ func layoutSrc(k int, o odef) string {
 	for _, n := range []string{"a", "b", "S"} {
 		switch o.kind(n) {
 		case 'v':
-			parts = append(parts, fmt.Sprintf("%s: %d", n, val(k, n)))
+			parts = append(parts, fmt.Sprintf("%s: %s", n, o.valSrc(k, n)))
 		case 'f':
 			parts = append(parts, fmt.Sprintf(`%s: {|s, y| ["f%s", %d, s['%s], y]}`, n, n, k, id))
 		case 'm':
@@ -186,6 +190,26 @@ func layoutSrc(k int, o odef) string {
 		parts = append(parts, fmt.Sprintf(`_missing: %d`, 9000+k))
 	}
 	return "{" + strings.Join(parts, ", ") + "}"
+}
+
+func (o odef) valSrc(k int, n string) string {
+	switch o.VK {
+	case 1:
+		return fmt.Sprintf(`{|x, y| ["called", x, y]}.bear({tag: %d})`, val(k, n))
+	case 2:
+		return fmt.Sprintf("<{|x| yield %d}>", val(k, n))
+	}
+	return fmt.Sprint(val(k, n))
+}
+
+func (o odef) valRepr(k int, n string) string {
+	switch o.VK {
+	case 1:
+		return fmt.Sprintf(`{"tag": %d}`, val(k, n))
+	case 2:
+		return fmt.Sprintf("<{|x| yield %d}>", val(k, n))
+	}
+	return fmt.Sprint(val(k, n))
 }
 
 func val(k int, n string) int {
@@ -272,7 +296,7 @@ func (t tcase) probes() []probe {
 				}
 				switch {
 				case owner >= 0 && t.own(owner).kind(name) == 'v':
-					return probe{src: src, want: fmt.Sprint(val(t.def(owner), name)), what: "call/value-property"}
+					return probe{src: src, want: t.own(owner).valRepr(t.def(owner), name), what: "call/value-property"}
 				case owner >= 0:
 					tag := string(t.own(owner).kind(name)) + name
 					return probe{src: src, want: fmt.Sprintf(`["%s", %d, %d, %s]`, tag, t.def(owner), t.def(k), y), what: "call/callable-property"}
@@ -287,7 +311,7 @@ func (t tcase) probes() []probe {
 			// indexing by symbol and which agree with the same walk
 			switch {
 			case owner >= 0 && t.own(owner).kind(name) == 'v':
-				ps = append(ps, probe{src: v + "['" + name + "]", want: fmt.Sprint(val(t.def(owner), name)), what: "index"})
+				ps = append(ps, probe{src: v + "['" + name + "]", want: t.own(owner).valRepr(t.def(owner), name), what: "index"})
 			case owner >= 0:
 				tag := string(t.own(owner).kind(name)) + name
 				ps = append(ps, probe{src: v + "['" + name + "](" + v + ", 9)", want: fmt.Sprintf(`["%s", %d, %d, 9]`, tag, t.def(owner), t.def(k)), what: "index"})
@@ -457,6 +481,11 @@ func layouts(set string) []odef {
 				}
 			}
 		}
+	case "valkinds":
+		for vk := 1; vk <= 2; vk++ {
+			ls = append(ls, odef{A: 'v', B: '-', VK: vk}, odef{A: '-', B: 'v', Miss: true, VK: vk}, odef{A: 'v', B: 'm', VK: vk})
+		}
+		ls = append(ls, odef{A: '-', B: '-'}, odef{A: 'm', B: '-', Miss: true})
 	case "family3-small":
 		ls = []odef{{A: '-', B: '-', PID: true}, {A: 'v', B: '-', PID: true}, {A: '-', B: '-', Miss: true, PID: true}, {A: 'm', B: 'f', PID: true}}
 	case "family2-small":
@@ -620,9 +649,9 @@ func run(c *core.Ctx) {
 		depth int
 		set   string
 	}
-	plans := []plan{{1, "full"}, {2, "full"}, {3, "8"}, {2, "family2"}, {3, "family2-small"}, {2, "family3"}, {3, "family3-small"}}
+	plans := []plan{{1, "full"}, {2, "full"}, {3, "8"}, {2, "family2"}, {3, "family2-small"}, {2, "family3"}, {3, "family3-small"}, {2, "valkinds"}}
 	if c.Thorough() {
-		plans = []plan{{1, "full"}, {2, "full"}, {3, "16"}, {4, "4"}, {2, "family2"}, {3, "family2"}, {3, "family3"}, {4, "family3-small"}}
+		plans = []plan{{1, "full"}, {2, "full"}, {3, "16"}, {4, "4"}, {2, "family2"}, {3, "family2"}, {3, "family3"}, {4, "family3-small"}, {3, "valkinds"}}
 	}
 	if c.Thorough() {
 		noiseDepth = 3
